@@ -971,7 +971,7 @@ def run(prop, tier):
                             "grids with exact rational expected window counts, observed behaviourally through discriminating "
                             "probe signals; full accept/reject table")
         c06_signed_table(rep)
-        ws = ["0.001", "0.005", "0.01", "0.015", "0.02", "0.025", "0.03", "0.05", "0.1", "0.25", "0.3"]
+        ws = ["0.001", "0.005", "0.01", "0.015", "0.02", "0.025", "0.03", "0.05", "0.1", "0.25", "0.3", "0.0125", "0.0025"]
         kq = [1, 2, 3, 5, 7, 12, 25]
         kt = [1, 2, 3, 4, 5, 6, 7, 9, 12, 14, 19, 23, 25, 29, 33, 41, 47, 55, 58, 60]
         extra = [k for k in range(1, 61) if k not in kq]
